@@ -7,6 +7,12 @@ with the bands of the statement, and every case is repeated on alpha*x+beta for 
 of the equivariance alphabet (SAME waveform array, SAME numpy seed) and compared with the
 affine image of the base result.
 
+Record-length classes (added after seeded wave 3): besides the 64/128-slot records the pattern alphabet holds ODD slot
+counts (whole PRBS periods 127 / 511, 65 random bits), a RAGGED record (66.5 slots) and LONG records around and beyond the
+default `nslots` of GET_EYE (4097, 5000, 8192 slots, a whole PRBS15 period); a further part calls GET_EYE with an explicit
+even `nslots` argument (64, an intermediate value, the record length).  In every case the hypotheses (both symbols, >= 15
+transitions, rare symbols) are evaluated on the slots GET_EYE analyses: the first min(nslots, even number of whole slots).
+
 The waveform is built without the library (own LFSR for the PRBS bits, np.kron, scipy
 Bessel/sosfiltfilt, a private RandomState); only GET_EYE (and gv for sps) is under test.
 """
@@ -29,9 +35,18 @@ STEP = 1.0 / SPS_RESAMP
 R = 1e9
 
 # last two: legal random patterns with one RARE symbol (a 16-PPM frame stream: 1 mark in 16 slots; 6 % isolated spaces)
-PATTERNS = ['prbs7:64', 'prbs7:128', 'prbs9:128', 'rand0:64', 'rand1:128', 'rand2:128', 'ppm16:128', 'spaces6:128']
+# then the odd / ragged record lengths: a whole PRBS7 period (127 slots), 65 random bits, 66 slots + half a slot
+PATTERNS = ['prbs7:64', 'prbs7:128', 'prbs9:128', 'rand0:64', 'rand1:128', 'rand2:128', 'ppm16:128', 'spaces6:128',
+            'prbs7:127', 'rand3:65', 'rand4:66.5']
+# expensive records (0.1 ... 0.8 s per call): a whole PRBS9 period and records around / beyond the default nslots = 4096 of
+# GET_EYE (odd just above it, not a multiple of it, an exact multiple, a whole PRBS15 period); thorough adds the two
+# remaining boundary lengths.  Enumerated on a deviation lattice (see enumerate_long), not in the full product.
+PATTERNS_LONG = ['prbs9:511', 'rand5:4097', 'rand6:5000', 'rand7:8192', 'prbs15:32767']
+PATTERNS_LONG_THOROUGH = ['rand8:4096', 'rand9:4098']
+NSLOTS_DEFAULT = 4096    # default of the `nslots` argument of GET_EYE
 SPS = [8, 16, 32]
-LEVELS = [(0.0, 1.0), (0.0, 1e-3), (0.0, 100.0), (5.0, 6.0), (-50.0, 50.0), (2e-4, 1.2e-3)]
+# last: both levels negative
+LEVELS = [(0.0, 1.0), (0.0, 1e-3), (0.0, 100.0), (5.0, 6.0), (-50.0, 50.0), (2e-4, 1.2e-3), (-3.0, -2.0)]
 SIGMA_PCT = [0.5, 1.0, 2.0, 5.0]
 KSEEDS = [0, 1, 2]
 EQUIV = [(1e-3, 0.0), (1e3, 0.0), (1.0, 7.0), (0.02, -3.0), (50.0, 1.0)]
@@ -57,32 +72,56 @@ def _lfsr(order, taps, n):
     return np.array(out, dtype=np.uint8)
 
 
-PRBS_TAPS = {7: (7, 6), 9: (9, 5)}
+PRBS_TAPS = {7: (7, 6), 9: (9, 5), 15: (15, 14)}
 
 
-def pattern_bits(name, seed):
-    kind, n = name.split(':')
-    n = int(n)
-    if kind.startswith('prbs'):
-        order = int(kind[4:])
-        bits = _lfsr(order, PRBS_TAPS[order], n)
-    elif kind == 'ppm16':
-        rs = np.random.RandomState((seed * 1000003 + 104729) % (2 ** 32))
+def pattern_slots(name):
+    """(number of bits generated, record length in slots (may end in .5: ragged record), even number of WHOLE slots)"""
+    nf = float(name.split(':')[1])
+    whole = int(np.floor(nf))
+    return int(np.ceil(nf)), nf, 2 * (whole // 2)
+
+
+def analysed_slots(name, nslots=None):
+    """number of leading slots GET_EYE analyses: `nslots` (default 4096) or all whole slots, rounded down to even"""
+    return min(pattern_slots(name)[2], NSLOTS_DEFAULT if nslots is None else int(nslots))
+
+
+def admissible(bits):
+    """hypotheses of the statement on the analysed slots (+ the harness' own >= 15 transitions)"""
+    return bits.min() == 0 and bits.max() == 1 and int(np.count_nonzero(np.diff(bits.astype(int)))) >= 15
+
+
+def _draw_bits(kind, n, seed, attempt):
+    salt = 15485863 * attempt          # attempt 0 = the content used before the redraw loop existed
+    if kind == 'ppm16':
+        rs = np.random.RandomState((seed * 1000003 + 104729 + salt) % (2 ** 32))
         bits = np.zeros(n, dtype=np.uint8)
         for f in range(n // 16):
             bits[f * 16 + rs.randint(0, 16)] = 1
     elif kind == 'spaces6':
-        rs = np.random.RandomState((seed * 1000003 + 130363) % (2 ** 32))
+        rs = np.random.RandomState((seed * 1000003 + 130363 + salt) % (2 ** 32))
         bits = np.ones(n, dtype=np.uint8)
         for f in range(n // 16):                      # one isolated space per 16-slot frame, never on a frame edge
             bits[f * 16 + rs.randint(2, 14)] = 0
     else:
         k = int(kind[4:])
-        bits = np.random.RandomState((seed * 1000003 + 7919 * (k + 1)) % (2 ** 32)).randint(0, 2, n).astype(np.uint8)
-        # "both symbols present": force it deterministically (never needed in practice for 64+ fair bits)
-        if bits.min() == bits.max():
-            bits[::2] ^= 1
+        bits = np.random.RandomState((seed * 1000003 + 7919 * (k + 1) + salt) % (2 ** 32)).randint(0, 2, n).astype(np.uint8)
     return bits
+
+
+def pattern_bits(name, seed):
+    kind = name.split(':')[0]
+    n = pattern_slots(name)[0]
+    if kind.startswith('prbs'):
+        order = int(kind[4:])
+        return _lfsr(order, PRBS_TAPS[order], n)
+    # seeded members: redraw (deterministically) until the analysed slots satisfy the hypotheses; practically always attempt 0
+    for attempt in range(64):
+        bits = _draw_bits(kind, n, seed, attempt)
+        if admissible(bits[:analysed_slots(name)]):
+            return bits
+    raise AssertionError(f'no admissible content for {name} seed {seed}')
 
 
 def waveform01(bits, sps):
@@ -102,6 +141,9 @@ def build(case):
     seed, pat, sps, (a, b), sig_i, stream, kseed = case
     bits = pattern_bits(pat, seed)
     w = waveform01(bits, sps)
+    nsamp = int(round(pattern_slots(pat)[1] * sps))     # ragged record: the last slot is cut in the middle
+    assert abs(nsamp - pattern_slots(pat)[1] * sps) < 1e-9 and nsamp <= w.size
+    w = w[:nsamp]
     sig = SIGMA_PCT[sig_i] / 100.0
     u = w + sig * noise01(seed, pat, sps, sig_i, stream, w.size)   # unit waveform incl. noise
     x = a + (b - a) * u
@@ -112,13 +154,16 @@ def build(case):
 FIELDS = ('mu0', 'mu1', 's0', 's1', 'threshold', 't_left', 't_right', 't_opt', 'i')
 
 
-def call_eye(x, sps, kseed):
+def call_eye(x, sps, kseed, nslots=None):
     from opticomlib.devices import GET_EYE
     gv_reset(sps=sps, R=R)
     np.random.seed(kseed)          # sklearn KMeans(random_state=None) draws from numpy's global RNG
     xin = np.array(x, dtype=float)
     xin.flags.writeable = False
-    e = GET_EYE(xin, sps_resamp=SPS_RESAMP)
+    if nslots is None:
+        e = GET_EYE(xin, sps_resamp=SPS_RESAMP)
+    else:
+        e = GET_EYE(xin, nslots=int(nslots), sps_resamp=SPS_RESAMP)
     return {k: getattr(e, k, None) for k in FIELDS}
 
 
@@ -239,14 +284,15 @@ def check_equiv(base, out, alpha, beta, d, xmax, tag):
 
 # ------------------------------------------------------------------ case function
 def eye_case(case):
-    """case = (seed, pattern, sps, (a,b), sigma index, noise stream, kmeans seed, equiv pair indices)"""
-    seed, pat, sps, (a, b), sig_i, stream, kseed, eq = case
+    """case = (seed, pattern, sps, (a,b), sigma index, noise stream, kmeans seed, equiv pair indices[, nslots argument])"""
+    seed, pat, sps, (a, b), sig_i, stream, kseed, eq = case[:8]
+    nslots = case[8] if len(case) > 8 else None
     bits, x, sigma = build(case[:7])
-    ntrans = int(np.count_nonzero(np.diff(bits.astype(int))))
-    assert bits.min() == 0 and bits.max() == 1 and ntrans >= 15, 'pattern alphabet member is degenerate'
-    tag = f'{pat} sps={sps} kseed={kseed} stream={stream}'
-    base = call_eye(x, sps, kseed)
-    n1 = int(bits.sum()); n0 = int(bits.size - n1)
+    used = bits[:analysed_slots(pat, nslots)]            # the slots GET_EYE analyses
+    assert used.size >= 64 and used.size % 2 == 0 and admissible(used), 'pattern alphabet member is degenerate'
+    tag = f'{pat} sps={sps} kseed={kseed} stream={stream}' + ('' if nslots is None else f' nslots={nslots}')
+    base = call_eye(x, sps, kseed, nslots)
+    n1 = int(used.sum()); n0 = int(used.size - n1)
     rare = tuple(s for s, n in (('s0', n0), ('s1', n1)) if n < 24)
     viol = check_bands(base, a, b, sigma, sps, tag, rare)
     obs = [canon(base)]
@@ -254,7 +300,7 @@ def eye_case(case):
     xmax = float(np.max(np.abs(x)))
     for j in eq:
         alpha, beta = EQUIV[j]
-        out = call_eye(alpha * x + beta, sps, kseed)
+        out = call_eye(alpha * x + beta, sps, kseed, nslots)
         ncalls += 1
         viol += check_equiv(base, out, alpha, beta, b - a, xmax, tag + f' a={a:g} b={b:g} sigma={sigma:g}')
         obs.append(canon(out))
@@ -270,11 +316,27 @@ def eye_case(case):
 
 def selftest_case(case):
     """harness self-checks: PRBS bits equal an independent LFSR; the oracle rejects hand-made wrong results"""
-    for order in (7, 9):     # the LFSR is maximal length: period 2^order - 1, 2^(order-1) ones per period
+    for order in (7, 9, 15):  # the LFSR is maximal length: period 2^order - 1, 2^(order-1) ones per period
         seq = _lfsr(order, PRBS_TAPS[order], 2 * (2 ** order - 1))
         per = 2 ** order - 1
         assert np.array_equal(seq[:per], seq[per:]) and int(seq[:per].sum()) == 2 ** (order - 1)
-        assert all(not np.array_equal(seq[:per], np.roll(seq[:per], k)) for k in range(1, per))
+        if order < 15:
+            assert all(not np.array_equal(seq[:per], np.roll(seq[:per], k)) for k in range(1, per))
+        else:                 # every non-zero 15-bit window occurs exactly once per period <=> the period is not shorter
+            win = np.convolve(np.concatenate([seq[:per], seq[:14]]).astype(np.int64), 2 ** np.arange(15), 'valid')
+            assert win.size == per and np.unique(win).size == per and win.min() >= 1
+    # record-length bookkeeping: (bits generated, slots, even whole slots) and the slots GET_EYE analyses
+    assert pattern_slots('prbs7:127') == (127, 127.0, 126) and pattern_slots('rand4:66.5') == (67, 66.5, 66)
+    assert pattern_slots('rand3:65')[2] == 64 and pattern_slots('rand6:5000')[2] == 5000
+    assert analysed_slots('rand6:5000') == 4096 and analysed_slots('rand5:4097') == 4096 and analysed_slots('prbs9:511') == 510
+    assert analysed_slots('rand6:5000', 64) == 64 and analysed_slots('rand1:128', 96) == 96 and analysed_slots('prbs7:127', 4096) == 126
+    assert nslots_values('rand1:128', False) == [64, 96, 128] and nslots_values('rand3:65', False) == [64]
+    assert nslots_values('prbs7:127', False) == [64, 94, 126] and nslots_values('rand6:5000', False) == [64, 2080]
+    assert nslots_values('rand6:5000', True) == [64, 2080, 5000] and nslots_values('prbs15:32767', True) == [64, 2080]
+    for pat in PATTERNS + PATTERNS_LONG + PATTERNS_LONG_THOROUGH:
+        assert pattern_slots(pat)[2] >= 64
+        if pattern_slots(pat)[1] < 600:     # sample count of the record handed to GET_EYE (ragged: 66.5 slots)
+            assert build((0, pat, 8, (0.0, 1.0), 0, 0, 0))[1].size == int(round(pattern_slots(pat)[1] * 8))
     good = dict(mu0=0.01, mu1=0.99, s0=0.012, s1=0.012, threshold=0.5, t_left=-0.5, t_right=0.5, t_opt=0.0, i=4)
     assert check_bands(good, 0.0, 1.0, 0.01, 8, 'self') == []
     bads = [dict(good, mu0=0.09), dict(good, mu1=0.9), dict(good, s0=0.004), dict(good, s1=0.06),
@@ -314,7 +376,7 @@ def enumerate_cases(ctx):
     n_full = n_dev = 0
     for stream in streams:
         for (a, b) in LEVELS:
-            small = (b - a) <= 1.0
+            small = (b - a) <= 1.0 and a >= 0.0
             idx = full if (small or not ctx.quick) else dev2
             for (p, s, g, k) in idx:
                 cases.append((ctx.seed, PATTERNS[p], SPS[s], (a, b), g, stream, KSEEDS[k], eq_all))
@@ -323,6 +385,57 @@ def enumerate_cases(ctx):
             else:
                 n_dev += len(idx)
     return cases, n_full, n_dev
+
+
+EQ_FEW = (0, 2)      # one pure scaling (alpha = 1e-3) and one pure offset (beta = 7) for the expensive / additional parts
+
+
+def _lattice(ctx):
+    """(sps, level pair, sigma, KMeans seed) index vectors within <= 1 (quick) / <= 2 (thorough) deviations of the simplest"""
+    return _deviations([len(SPS), len(LEVELS), len(SIGMA_PCT), len(KSEEDS)], 1 if ctx.quick else 2)
+
+
+def enumerate_long(ctx):
+    """expensive records (default nslots): deviation lattice, simplest vector first, all patterns per vector"""
+    pats = PATTERNS_LONG + ([] if ctx.quick else PATTERNS_LONG_THOROUGH)
+    eq_all = tuple(range(len(EQUIV)))
+    cases = []
+    for v in _lattice(ctx):
+        s, l, g, k = v
+        for pat in pats:
+            cases.append((ctx.seed, pat, SPS[s], LEVELS[l], g, 0, KSEEDS[k], eq_all if not any(v) else EQ_FEW))
+    return cases
+
+
+def nslots_values(pat, thorough):
+    """explicit even `nslots` arguments for a record of L whole slots: the smallest quantified record (64), an intermediate
+    value (even midpoint of 64 and min(L, 4096)), and L itself unless that is expensive (quick: L <= 512, thorough: L <= 8192)"""
+    L = pattern_slots(pat)[2]
+    vals = [64, 2 * ((64 + min(L, NSLOTS_DEFAULT)) // 4)]
+    if L <= (8192 if thorough else 512):
+        vals.append(L)
+    return sorted(set(vals))
+
+
+def enumerate_nslots(ctx):
+    """explicit `nslots` argument: every pattern x nslots_values x deviation lattice; combinations whose analysed prefix
+    does not satisfy the hypotheses (one symbol only / < 15 transitions: the rare-symbol patterns cut to 64 slots) are skipped"""
+    pats = PATTERNS + PATTERNS_LONG + ([] if ctx.quick else PATTERNS_LONG_THOROUGH)
+    eq_all = tuple(range(len(EQUIV)))
+    combos, skipped = [], []
+    for pat in pats:
+        bits = pattern_bits(pat, ctx.seed)
+        for ns in nslots_values(pat, not ctx.quick):
+            (combos if admissible(bits[:analysed_slots(pat, ns)]) else skipped).append((pat, ns))
+    cases = []
+    lat1 = set(_deviations([len(SPS), len(LEVELS), len(SIGMA_PCT), len(KSEEDS)], 1))
+    for v in _lattice(ctx):
+        s, l, g, k = v
+        for pat, ns in combos:
+            if analysed_slots(pat, ns) > 512 and v not in lat1:     # expensive calls: <= 1 deviation in both tiers
+                continue
+            cases.append((ctx.seed, pat, SPS[s], LEVELS[l], g, 0, KSEEDS[k], eq_all if not any(v) else EQ_FEW, ns))
+    return cases, combos, skipped
 
 
 # minimal inputs of the two confirmed defects (fixed content: harness seed 0), executed in both tiers
@@ -335,12 +448,19 @@ REGRESS = [
 
 
 def run(ctx):
-    ctx.rule('C17: full product bit pattern {PRBS7[:64],PRBS7[:128],PRBS9[:128],3 seeded random} x sps {8,16,32} x level pair '
-             '(a,b) in {(0,1),(0,1e-3),(0,100),(5,6),(-50,50),(2e-4,1.2e-3)} x sigma {0.5,1,2,5}% of b-a x KMeans seed {0,1,2} '
-             '(x 4 private noise streams in the thorough tier); quick tier: full product for the level pairs with b-a <= 1 V, '
-             'all vectors deviating in <= 2 coordinates from the simplest one for the 100 V pairs; each case is executed on x and '
-             'on alpha x + beta for all 5 (alpha,beta) pairs (same array, same numpy seed) = 6 GET_EYE(x, sps_resamp=128) calls; '
-             'oracles: the bands of the statement and the affine image of the base result')
+    ctx.rule('C17: full product bit pattern {PRBS7[:64],PRBS7[:128],PRBS9[:128],3 seeded random, 16-PPM, 6 % spaces, whole PRBS7 '
+             'period (127 slots), 65 random bits, 66.5 random slots} x sps {8,16,32} x level pair (a,b) in {(0,1),(0,1e-3),(0,100),'
+             '(5,6),(-50,50),(2e-4,1.2e-3),(-3,-2)} x sigma {0.5,1,2,5}% of b-a x KMeans seed {0,1,2} (x 4 private noise streams in '
+             'the thorough tier); quick tier: full product for the level pairs with b-a <= 1 V and a >= 0, all vectors deviating '
+             'in <= 2 coordinates from the simplest one for the other pairs; each case is executed on x and on alpha x + beta for '
+             'all 5 (alpha,beta) pairs (same array, same numpy seed) = 6 GET_EYE(x, sps_resamp=128) calls; oracles: the bands of '
+             'the statement and the affine image of the base result')
+    ctx.rule('part eye-long: expensive records {whole PRBS9 period 511, 4097, 5000, 8192 random slots, whole PRBS15 period 32767; '
+             'thorough also 4096, 4098} x all (sps, level pair, sigma, KMeans seed) vectors within <= 1 (quick) / <= 2 (thorough) '
+             'deviations of the simplest one; all 5 unit changes on the simplest vector, (1e-3,0) and (1,7) on the others')
+    ctx.rule('part eye-nslots: GET_EYE(x, nslots=n, sps_resamp=128) for every pattern of both alphabets x n in {64, even midpoint of 64 '
+             'and min(L,4096), L (quick: L <= 512, thorough: L <= 8192)} (L = even number of whole slots of the record) x the same '
+             'deviation lattice and unit changes as eye-long; hypotheses / rare symbols evaluated on the first n slots')
     ctx.assume('numpy.random.seed(k) fixes every draw of sklearn KMeans (random_state=None uses the global RNG); '
                'workers are single-threaded so KMeans is deterministic')
     ctx.assume('scipy.signal.bessel/sosfiltfilt (the mild band-limit of the harness waveform) and RandomState are correct')
@@ -357,5 +477,13 @@ def run(ctx):
     ctx.space('axes.equiv_pairs', len(EQUIV), quiet=True)
     ctx.space('cases.full_product', n_full)
     ctx.space('cases.deviation<=2', n_dev)
+    ctx.space('axes.pattern_long', len(PATTERNS_LONG) + (0 if ctx.quick else len(PATTERNS_LONG_THOROUGH)), quiet=True)
     ctx.pmap('eye', eye_case, cases, horizon=60, chunk=4)
+    ncases, combos, skipped = enumerate_nslots(ctx)
+    ctx.space('nslots.pattern_x_nslots', len(combos))
+    ctx.space('nslots.skipped_inadmissible_prefix', len(skipped))
+    ctx.extra['nslots_skipped'] = [f'{p}/nslots={n}' for p, n in skipped]
+    ctx.pmap('eye-nslots', eye_case, ncases, horizon=120, chunk=2)
+    # one long case = 3 ... 6 calls of 0.6 s (idle); generous horizon because the machine is shared; recheck 2 (re-runs are serial)
+    ctx.pmap('eye-long', eye_case, enumerate_long(ctx), horizon=600, chunk=1, recheck=2)
     ctx.extra['get_eye_calls'] = ctx.stats.get('GET_EYE_calls', 0)
